@@ -48,6 +48,11 @@ func main() {
 	copy(ctops.Cur[:], w[:])
 	op() // warm: lazy initialisation happens in the parent
 	secs := ctops.Secrets(ns)
+	// the last call before the fork uses secret #0: children 0 and 1 (the calibration pair) then repeat the previous
+	// call's secret, all others use a different one. Code that remembers the previous secret and compares (a memo
+	// keyed by the key, "same signer as last time") takes another path in exactly those two children.
+	ctops.Cur = secs[0]
+	op()
 	var pids [32]int
 	np := 0
 	for i := range secs {
